@@ -1161,9 +1161,9 @@ static void chan_unlock_args(const Janet *argv, int32_t n) {
         const Janet *data;
         JanetChannel *chan;
         if (janet_indexed_view(argv[i], &data, &len) && len == 2) {
-            chan = janet_getchannel(data, 0);
+            chan = janet_channel_unwrap(janet_unwrap_abstract(data[0]));
         } else {
-            chan = janet_getchannel(argv, i);
+            chan = janet_channel_unwrap(janet_unwrap_abstract(argv[i]));
         }
         janet_chan_unlock(chan);
     }
@@ -1189,11 +1189,21 @@ JANET_CORE_FN(cfun_channel_choice,
         janet_panic("cannot select from channel inside janet_call");
     }
 
+    /* Validate every clause before taking any channel lock: raising with locks held
+     * would block other threads on those channels forever. */
+    for (int32_t i = 0; i < argc; i++) {
+        if (janet_indexed_view(argv[i], &data, &len) && len == 2) {
+            janet_getchannel(data, 0);
+        } else {
+            janet_getchannel(argv, i);
+        }
+    }
+
     /* Check channels for immediate reads and writes */
     for (int32_t i = 0; i < argc; i++) {
         if (janet_indexed_view(argv[i], &data, &len) && len == 2) {
             /* Write */
-            JanetChannel *chan = janet_getchannel(data, 0);
+            JanetChannel *chan = janet_channel_unwrap(janet_unwrap_abstract(data[0]));
             janet_chan_lock(chan);
             if (chan->closed) {
                 janet_chan_unlock(chan);
@@ -1207,7 +1217,7 @@ JANET_CORE_FN(cfun_channel_choice,
             }
         } else {
             /* Read */
-            JanetChannel *chan = janet_getchannel(argv, i);
+            JanetChannel *chan = janet_channel_unwrap(janet_unwrap_abstract(argv[i]));
             janet_chan_lock(chan);
             if (chan->closed) {
                 janet_chan_unlock(chan);
@@ -1227,12 +1237,12 @@ JANET_CORE_FN(cfun_channel_choice,
     for (int32_t i = 0; i < argc; i++) {
         if (janet_indexed_view(argv[i], &data, &len) && len == 2) {
             /* Write */
-            JanetChannel *chan = janet_getchannel(data, 0);
+            JanetChannel *chan = janet_channel_unwrap(janet_unwrap_abstract(data[0]));
             janet_channel_push_with_lock(chan, data[1], 1);
         } else {
             /* Read */
             Janet item;
-            JanetChannel *chan = janet_getchannel(argv, i);
+            JanetChannel *chan = janet_channel_unwrap(janet_unwrap_abstract(argv[i]));
             janet_channel_pop_with_lock(chan, &item, 1);
         }
     }
